@@ -19,6 +19,7 @@ MUST_REJECT = {
     "comm_subst_shared": "C05", "comm_subst_independent": "C05", "inner_id_other": "C05", "omit_pred": "C05",
     "eq_independent_nonces": "C09", "eq_copy_response": "C09", "eq_unequal_shared_nonce": "C09",
     "withhold_consistent": "C02", "extra_consistent": "C02",
+    "venc_no_dec_part": "C10", "venc_subst_shared": "C10", "venc_subst_independent": "C10",
     "tamper_extend_minus_c": "C11", "tamper_extend_zero": "C11", "tamper_shorten": "C11",
     "tamper_resp": "C11", "tamper_resp_neg": "C11", "tamper_resp_swap": "C11", "tamper_e1": "C11", "tamper_e2": "C11", "tamper_e3": "C11",
     "tamper_disc_scalar": "C11", "tamper_bp": "C11", "tamper_C": "C11", "tamper_reported": "C11",
@@ -44,6 +45,8 @@ def coq_schema(sch):
             out.append(f"SSig Zr {s['id']}%nat {coq_pk(s)} {nl(s['req'])}")
         elif s["k"] == "eq":
             out.append(f"SEq Zr {s['id']}%nat [" + ";".join(f"({r[0]}%nat,{r[1]}%nat)" for r in s["refs"]) + "]")
+        elif s["k"] == "venc":
+            out.append(f"SVenc Zr {s['id']}%nat {s['ref']}%nat {s['claim']}%nat (z {hz(s['gm'])}) (z {hz(s['ek'])}) {C.cbool(s['dec'])}")
         else:
             out.append(f"SComm Zr {s['id']}%nat {s['ref']}%nat {s['claim']}%nat (z {hz(s['gm'])}) (z {hz(s['gb'])})")
     return "[" + "; ".join(out) + "]"
@@ -59,6 +62,8 @@ def coq_proof(p):
         return f"PEq Zr {p['id']}%nat"
     if p["k"] == "comm":
         return f"PComm Zr {p['id']}%nat (z {hz(p['c'])}) (z {hz(p['bp'])})"
+    if p["k"] == "venc":
+        return f"PVenc Zr {p['id']}%nat (z {hz(p['c1'])}) (z {hz(p['c2'])}) (z {hz(p['bp'])}) {C.cbool(p['has'])}"
     return f"POther Zr {p['id']}%nat"
 
 
@@ -75,7 +80,7 @@ def coq_case(r):
 CLAIM_POOL = ["h:Alice", "h:Bob", "n:41", "n:-7", "h:", "h:90210", "n:0", "h:Zoe"]
 
 
-def base_scenario(rng, suite, n_creds=1, n_claims=None, eq=False, comm=False, disclosed=None):
+def base_scenario(rng, suite, n_creds=1, n_claims=None, eq=False, comm=False, disclosed=None, venc=None):
     creds = []
     n_issuers = rng.choice([1, n_creds]) if n_creds > 1 else 1
     common_val = rng.choice(["h:Alice", "h:link", "n:5"])
@@ -114,6 +119,12 @@ def base_scenario(rng, suite, n_creds=1, n_claims=None, eq=False, comm=False, di
         if eq and rng.random() < 0.5:
             claim = 1
         stmts.append({"k": "comm", "id": "c0", "ref": "s0", "claim": claim})
+    if venc is not None:
+        n = len(creds[0]["claims"])
+        sig0 = next(x for x in stmts if x["k"] == "sig" and x["id"] == "s0")
+        hidden = [i for i in range(n) if i not in sig0["disclosed"]]
+        claim = rng.choice(hidden) if hidden else 0
+        stmts.append({"k": "venc", "id": "v0", "ref": "s0", "claim": claim, "dec": bool(venc)})
     if rng.random() < 0.3 and len(stmts) > 1:
         # statement order in the schema is arbitrary
         rng.shuffle(stmts)
